@@ -141,6 +141,19 @@ CHECKS = {
     note="Integer-valued data (arithmetic exact). Not modelled yet: division, remainder, power, elementwise functions, buffer constructors "
          "(see C20), integers beyond 32 bits. Three clauses are marked CALIBRATED in the spec (empty left-hand sides, empty conversions).",
     technique="TLA+ executable reference model; TLC box exploration + TLC trace validation of random programs run on the real objects"),
+ "C16": dict(
+    category="model_checking",
+    text="SparseCCS.tla (on top of DenseMatrix.tla) keeps, for every object, its dense image and its kind; every operation on sparse "
+         "operands is the dense operation on the images plus the documented result kind (a 1 by 1 sparse matrix is not a scalar, in-place "
+         "operations must keep typecode and kind). The compressed-column arrays are observed, not modelled: seeded random programs mixing "
+         "spmatrix and matrix objects run in forked children (an interpreter crash is an observation) and TLC checks at every step that every "
+         "sparse object is a valid CCS structure (pointers, strictly increasing in-range row indices, consistent lengths), that it densifies "
+         "to the model's image, the kind, identity relations, and the pinned patterns (triplet construction with duplicates summed, entry "
+         "count kept by unary and scalar operations).",
+    design_ref="DESIGN.md section 4 C16",
+    note="Integer-valued data. base.gemv/gemm/syrk/symv/axpy with sparse operands, V assignment and size change are not in this check (C17/C19 "
+         "drivers cover the products). Calibrated clauses are marked in the spec.",
+    technique="TLA+ reference model over dense images; TLC trace validation (CCSValid + dense image at every step) of random programs run in crash-isolated children"),
 }
 
 NOT_YET = "check not built yet in this round (design in DESIGN.md section 4); not claimed"
